@@ -45,6 +45,7 @@ class Part:
         self.nt: set = set()  # digests of distinct non-trivial cases
         self.s: list = []  # samples
         self.capped: bool = False
+        self.mx: dict[str, int] = {}  # maxima (merged by max)
 
     def add(self, name: str, n: int = 1) -> None:
         self.c[name] = self.c.get(name, 0) + n
@@ -80,6 +81,9 @@ class Part:
             if len(self.s) < 12:
                 self.s.append(x)
         self.capped = self.capped or other.capped
+        for k, n in other.mx.items():
+            if n > self.mx.get(k, 0):
+                self.mx[k] = n
 
 
 def load_known() -> list[dict]:
@@ -172,6 +176,7 @@ class Run:
             "counters": dict(sorted(tot.c.items())),
             "distinct_outcomes": dict(sorted(tot.o.items())),
             "violations_by_kind": dict(sorted(tot.vk.items())),
+            "maxima": dict(sorted(tot.mx.items())),
             "known_findings_hit": sorted(known_hit),
         }
         cov.update(self.extra)
